@@ -19,6 +19,10 @@ func init() {
 }
 
 func c18(c *q.Ctx) {
+	// the data the snapshot walk reads: writer records name the block that holds them on the main chain, and the
+	// live / recycle tables are exact after an undo
+	txRemap(c)
+	xmodelDoUndo(c)
 	const xm = "bcs/ledger/xledger/state/xmodel::"
 	const st = "bcs/ledger/xledger/state::"
 	g := c.Fn(xm + "(*xModSnapshot).Get")
